@@ -13,8 +13,8 @@ def build():
     for cst in ["APP_ORG", "APP_NAME", "X509_VERSION", "CRT_SERIAL_NB_BITS", "INVALID_EXT_MSG", "CRT_NB_DAYS_VALIDITY"]:
         u.take(CR, cst, "crypto")
     u.take(CR, "BaseSubjectAttribute", "crypto", keep_derives=("Eq", "Hash", "PartialEq", "Clone", "Copy"))
-    u.take(CR, "BaseHashFunction", "crypto", keep_derives=("PartialEq",))
-    u.take("acme_common/src/crypto/key_type.rs", "KeyType", "crypto", keep_derives=("PartialEq",))
+    u.take(CR, "BaseHashFunction", "crypto", keep_derives=("PartialEq", "Clone", "Copy"))
+    u.take("acme_common/src/crypto/key_type.rs", "KeyType", "crypto", keep_derives=("PartialEq", "Clone", "Copy"))
     u.take("acme_common/src/crypto/openssl_keys.rs", "KeyPair", "crypto")
     u.raw("crypto", CRYPTO_TRUSTED, trusted=True)
     u.module("crypto::openssl_certificate", "use crate::*;\nuse super::*;\nuse super::{gen_keypair, KeyPair, KeyType, SubjectAttribute};\n"
